@@ -129,6 +129,13 @@ Setup ==
                << <<NameQN("ex", A, <<"attr">>), [t |-> "int", v |-> "1"]>> >>),
             NR("b1", "agent", <<NamePL("ex", Y)>>, <<>>, <<>>),
             NR("d2", "entity", <<NamePL("ex", Y)>>, <<>>, <<>>) >>
+    [] Scenario = "c12c" ->      \* d1 has a default namespace that a bare name uses; its bundle holds a record
+                                 \* under the identifier of a top-level record
+         SetupWorld \o
+         << [op |-> "SetDefault", h |-> "d1", u |-> C],
+            NR("d1", "entity", <<NameBare(X)>>, <<>>, <<>>),
+            NR("d1", "entity", <<NamePL("ex", X)>>, <<>>, <<>>),
+            NR("b1", "agent", <<NamePL("ex", X)>>, <<>>, <<>>) >>
     [] Scenario = "c12b" ->      \* d2 has a record and a bundle that holds nothing
          SetupWorld \o
          << NR("d2", "entity", <<NamePL("ex", Y)>>, <<>>, <<>>),
@@ -231,7 +238,7 @@ RecMenu ==
                                <<NameQN("ex", A, <<"attr2">>), [t |-> "str", v |-> "s1"]>> >>,
                             << <<NameQN("ex", A, <<"attr2">>), [t |-> "str", v |-> "s1"]>>,
                                <<NameQN("ex", A, <<"attr">>), [t |-> "int", v |-> "1"]>> >> } }
-    [] Scenario \in {"c12", "c12b"} ->
+    [] Scenario \in {"c12", "c12b", "c12c"} ->
          { [k |-> "entity", id |-> <<NamePL("ex", <<"z">>)>>, formals |-> <<>>,     \* a literal with an application datatype
             extras |-> << <<NameQN("ex", A, <<"attr">>), [t |-> "lit", v |-> "s1", dt |-> QN("ex", A, <<"dtype">>)]>> >>],
            [k |-> "entity", id |-> <<NamePL("ex", Y)>>, formals |-> <<>>, extras |-> <<>>],
@@ -307,6 +314,9 @@ Menu ==
          \cup { [op |-> "AddType", r |-> [c |-> "b1", i |-> 2], v |-> [t |-> "name", n |-> NameQN("prov", ProvNS, <<"Plan">>)]] }
          \cup {a \in ActsDerive : a.op = "Unified" /\ a.h \in {"b1", "d1"}}
     [] Scenario \in {"c08", "c08b", "c08c", "c08d", "c08e"} -> ActsNewRec \cup {a \in ActsDerive : a.op = "Unified"}
+    \* (here a default namespace may also be set a second time, to another URI: C12 has no usage discipline)
+    [] Scenario = "c12c" -> ActsDerive \cup ActsMutate \cup ActsUpdate \cup ActsCopy \cup ActsAddRecord
+                            \cup {[op |-> "SetDefault", h |-> h, u |-> AB] : h \in Live}
     [] Scenario = "c12b" -> ActsNewRec \cup ActsDerive \cup ActsMutate \cup ActsUpdate
     [] Scenario = "c12" -> ActsNewRec \cup ActsAddRecord \cup ActsUpdate \cup ActsAddBundle
                            \cup ActsDerive \cup ActsMutate \cup ActsCopy
